@@ -142,7 +142,7 @@ Inductive run_res :=                 (* what ONE call of Retrier::run does *)
 | RunAbort (st : fsite)              (* a panic inside run: the task dies *)
 | RunFuel.                           (* the model's fuel for the while loop ran out: NEVER a normal value *)
 
-Inductive outcome :=                 (* what the spawned task did in a RetrierRun *)
+Inductive run_outcome :=                 (* what the spawned task did in a RetrierRun *)
 | OutDelivered                       (* Ok arm: tower Reachable, retrier Stopped *)
 | OutBackoff (e : retry_err)         (* transient error, another attempt will happen: still Running *)
 | OutIdle (e : retry_err)            (* gave up on a transient error: Idle, tower Unreachable *)
@@ -161,9 +161,9 @@ Inductive err :=
 Inductive fout :=
 | OOk
 | OErr (e : err)
-| OAbort (st : fsite)                (* the handler / manager / task panicked here *)
+| OPanic (st : fsite)                (* the handler / manager / task panicked here *)
 | OTick (k : tick)
-| ORun (o : outcome).
+| ORun (o : run_outcome).
 
 Definition lift_site (r : cres) : option fsite := match r with RAbort st => Some (SClient st) | _ => None end.
 
@@ -171,7 +171,7 @@ Definition lift_site (r : cres) : option fsite := match r with RAbort st => Some
 
 (* register (the user supplies tower id and address; `addr` is the id of host:port) *)
 Definition f_register (s : fstate) (t addr : N) (rp : rreply) : fstate * fout :=
-  if poisoned s then (s, OAbort (SClient Site_poisoned)) else
+  if poisoned s then (s, OPanic (SClient Site_poisoned)) else
   let s1 := log_req s (ReqRegister t) in
   match rp with
   | RReceipt slots start expiry sig_ok =>
@@ -180,7 +180,7 @@ Definition f_register (s : fstate) (t addr : N) (rp : rreply) : fstate * fout :=
     | (c', ROk) => (wr_c s1 c', OOk)
     | (c', RSubErrExpiry) => (set_c s1 c', OErr E_expiry)
     | (c', RSubErrSlots) => (set_c s1 c', OErr E_slots)
-    | (c', RAbort st) => (set_c s1 c', OAbort (SClient st))
+    | (c', RAbort st) => (set_c s1 c', OPanic (SClient st))
     | (c', _) => (set_c s1 c', OErr E_request)
     end
   | RConnErr =>
@@ -243,16 +243,16 @@ Fixpoint rev_loop (s : fstate) (l : N) (snapshot : list (N * tower_status)) (rep
   end.
 
 Definition f_revocation (s : fstate) (l : N) (replies : list (N * areply)) : fstate * fout :=
-  if poisoned s then (s, OAbort (SClient Site_poisoned)) else
+  if poisoned s then (s, OPanic (SClient Site_poisoned)) else
   let snapshot := map (fun kv => (fst kv, su_status (snd kv))) (c_towers (f_c s)) in
   match rev_loop s l snapshot replies with
-  | (s1, Some site) => (s1, OAbort site)
+  | (s1, Some site) => (s1, OPanic site)
   | (s1, None) => (set_due s1 (fold_left (fun d kv => due_add d (fst kv, l)) snapshot (f_due s1)), OOk)
   end.
 
 (* retry_tower *)
 Definition f_manual_retry (s : fstate) (t : N) : fstate * fout :=
-  if poisoned s then (s, OAbort (SClient Site_poisoned)) else
+  if poisoned s then (s, OPanic (SClient Site_poisoned)) else
   match aget (c_towers (f_c s)) t with
   | None => (s, OErr E_unknown_tower)
   | Some su =>
@@ -266,7 +266,7 @@ Definition f_manual_retry (s : fstate) (t : N) : fstate * fout :=
 (* abandon_tower: `state.remove_tower(tower_id).unwrap()`; remove_tower_record is two autocommit
    statements, the state between them is durable *)
 Definition f_abandon (s : fstate) (t : N) : fstate * fout :=
-  if poisoned s then (s, OAbort (SClient Site_poisoned)) else
+  if poisoned s then (s, OPanic (SClient Site_poisoned)) else
   if amem (c_towers (f_c s)) t then
     let s0 := match db_delete CS (c_db (f_c s)) T_towers [C_towers_tower_id] [t] true with
               | DbOk d1 => note_db s d1
@@ -274,7 +274,7 @@ Definition f_abandon (s : fstate) (t : N) : fstate * fout :=
               end in
     match wt_remove_tower (f_c s0) t with
     | (c', ROk) => (set_due (wr_c s0 c') (filter (fun p => negb (N.eqb (fst p) t)) (f_due s0)), OOk)
-    | (c', _) => (set_c s0 (poison c'), OAbort (SClient Site_abandon_remove_tower_unwrap))
+    | (c', _) => (set_c s0 (poison c'), OPanic (SClient Site_abandon_remove_tower_unwrap))
     end
   else (s, OErr E_unknown_tower).
 
@@ -332,7 +332,7 @@ Definition f_manager_tick (s : fstate) (elapsed : list N) : fstate * fout :=
   match f_chan s with
   | (t, data) :: rest =>
     let s0 := set_chan s rest in
-    if poisoned s0 then (kill_mgr s0, OAbort (SClient Site_poisoned)) else
+    if poisoned s0 then (kill_mgr s0, OPanic (SClient Site_poisoned)) else
     if negb (amem (c_towers (f_c s0)) t) then (s0, OTick TickSkipAbandoned)
     else match aget (f_mgr s0) t with
          | Some r =>
@@ -344,16 +344,16 @@ Definition f_manager_tick (s : fstate) (elapsed : list N) : fstate * fout :=
   | [] =>
     (* retain: remove_if_failed (needs the lock only for a failed retrier), keep startable / running / idle *)
     if poisoned s && existsb (fun kv => is_failed (r_status (snd kv))) (f_mgr s)
-    then (kill_mgr s, OAbort (SClient Site_poisoned)) else
+    then (kill_mgr s, OPanic (SClient Site_poisoned)) else
     let failed := map fst (filter (fun kv => is_failed (r_status (snd kv))) (f_mgr s)) in
     let c := f_c s in
     let c1 := with_retriers c (aretain (fun k => negb (memN k failed)) (c_retriers c)) in
     let kept := filter (fun kv => should_start (snd kv) || is_running (r_status (snd kv)) || is_idle (r_status (snd kv))) (f_mgr s) in
     let s1 := set_mgr (set_c s c1) kept in
     let todo := existsb (fun kv => should_start (snd kv) || (is_idle (r_status (snd kv)) && memN (fst kv) elapsed)) kept in
-    if poisoned s1 && todo then (kill_mgr s1, OAbort (SClient Site_poisoned)) else
+    if poisoned s1 && todo then (kill_mgr s1, OPanic (SClient Site_poisoned)) else
     match sweep s1 (map fst kept) elapsed [] [] with
-    | (s2, _, _, Some site) => (s2, OAbort site)
+    | (s2, _, _, Some site) => (s2, OPanic site)
     | (s2, started, woke, None) => (s2, OTick (TickSwept started woke))
     end
   end.
@@ -476,7 +476,7 @@ Definition retrier_clear (s : fstate) (t : N) : fstate :=
 Definition end_task (s : fstate) (t : N) : fstate := set_tasks s (remove_one t (f_tasks s)).
 
 (* what the spawned task does with the result of one attempt: sleep (back-off), or the Ok / Err arm *)
-Definition task_step (s : fstate) (t : N) (r : run_res) (more : bool) : fstate * outcome :=
+Definition task_step (s : fstate) (t : N) (r : run_res) (more : bool) : fstate * run_outcome :=
   match r with
   | RunOk =>
     (* set_tower_status(Reachable); set_status(Stopped) *)
@@ -509,7 +509,7 @@ Definition task_step (s : fstate) (t : N) (r : run_res) (more : bool) : fstate *
 
 (* the spawned task of Retrier::start: attempts of run until it succeeds, fails permanently, the
    back-off gives up, or the list of attempts is exhausted (then the task is still alive, sleeping) *)
-Fixpoint f_retrier_run (s : fstate) (t : N) (atts : list attempt) : fstate * outcome :=
+Fixpoint f_retrier_run (s : fstate) (t : N) (atts : list attempt) : fstate * run_outcome :=
   match atts with
   | [] => (s, if memN t (f_tasks s) then OutBackoff EUnreachable else OutNoTask)
   | a :: rest =>
@@ -532,36 +532,37 @@ Definition restart_with (s : fstate) (d : db) : fstate :=
 Definition f_restart (s : fstate) : fstate := restart_with s (c_db (f_c s)).
 
 (* ================= the operation language ================= *)
-Inductive op :=
-| Register (t : N) (rp : rreply)
-| Revocation (l : N) (replies : list (N * areply))
-| ManagerTick (elapsed : list N)
-| RetrierRun (t : N) (atts : list attempt)
-| ManualRetry (t : N)
-| Abandon (t : N)
-| Restart.
+(* (names carry an F prefix: all models are extracted into one OCaml file, Tower.v owns `op`, `step`, `run`) *)
+Inductive fop :=
+| FRegister (t : N) (rp : rreply)
+| FRevocation (l : N) (replies : list (N * areply))
+| FManagerTick (elapsed : list N)
+| FRetrierRun (t : N) (atts : list attempt)
+| FManualRetry (t : N)
+| FAbandon (t : N)
+| FRestart.
 
-Definition step (s : fstate) (o : op) : fstate * fout :=
+Definition fstep (s : fstate) (o : fop) : fstate * fout :=
   match o with
-  | Register t rp => f_register s t t rp
-  | Revocation l replies => f_revocation s l replies
-  | ManagerTick elapsed => f_manager_tick s elapsed
-  | RetrierRun t atts => let (s', o) := f_retrier_run s t atts in (s', ORun o)
-  | ManualRetry t => f_manual_retry s t
-  | Abandon t => f_abandon s t
-  | Restart => (f_restart s, OOk)
+  | FRegister t rp => f_register s t t rp
+  | FRevocation l replies => f_revocation s l replies
+  | FManagerTick elapsed => f_manager_tick s elapsed
+  | FRetrierRun t atts => let (s', o) := f_retrier_run s t atts in (s', ORun o)
+  | FManualRetry t => f_manual_retry s t
+  | FAbandon t => f_abandon s t
+  | FRestart => (f_restart s, OOk)
   end.
 
-Fixpoint run (s : fstate) (ops : list op) : fstate :=
-  match ops with [] => s | o :: rest => run (fst (step s o)) rest end.
+Fixpoint frun (s : fstate) (ops : list fop) : fstate :=
+  match ops with [] => s | o :: rest => frun (fst (fstep s o)) rest end.
 
 (* the durable states a SIGKILL during `o` can leave behind: the state before, and the state after
    each durable write of the operation, in program order *)
-Definition crash_states (o : op) (s : fstate) : list db :=
-  c_db (f_c s) :: f_dbs (fst (step (clear_dbs s) o)).
+Definition crash_states (o : fop) (s : fstate) : list db :=
+  c_db (f_c s) :: f_dbs (fst (fstep (clear_dbs s) o)).
 
 (* kill inside `o` after k durable writes, then start *)
-Definition crash_restart (s : fstate) (o : op) (k : nat) : fstate :=
+Definition crash_restart (s : fstate) (o : fop) (k : nat) : fstate :=
   restart_with s (nth k (crash_states o s) (c_db (f_c s))).
 
 (* ================= reads ================= *)
